@@ -4,6 +4,7 @@
 \* cast::<&dyn Error> where the call site promises the typed component.
 \* + every Display / Debug observation under the plain formatter and 8 formatter flag families (alternate, width, fill,
 \* precision, width+precision, sign, zero-pad, hex-debug), incl. flagged template holes.
+\* + attribute order: a true #[cfg(all())] before / after the capture attribute(s) of a pair, and between #[emit::optional] and the mode.
 SPECIFICATION Spec
 CONSTANTS
     MaxSteps = 4
